@@ -4,10 +4,13 @@ import importlib, json, os, sys
 HERE = os.path.dirname(os.path.dirname(os.path.abspath(__file__)))
 sys.path.insert(0, HERE)
 ALL = ["C%02d" % i for i in range(1, 21)]
+# checks integrated (fixes in /repo, run on /repo by the integrator); others are listed as not yet claimed
+_ip = os.path.join(HERE, "tools", "integrated.txt")
+INTEGRATED = set(open(_ip).read().split()) if os.path.exists(_ip) else set(ALL)
 checks, na = [], []
 for pid in ALL:
     path = os.path.join(HERE, "vmon", "props", pid.lower() + ".py")
-    if not os.path.exists(path):
+    if not os.path.exists(path) or pid not in INTEGRATED:
         na.append({"property_id": pid, "reason": "check not built yet (runtime monitor planned, DESIGN.md section 3/%s); not claimed in this commit" % pid})
         continue
     mod = importlib.import_module("vmon.props." + pid.lower())
